@@ -151,6 +151,54 @@ func runC18(c *h.Ctx) {
 			sampleEnc = append(sampleEnc, enc)
 		}
 	}
+	// pairs of DIFFERENT keys whose hexadecimal digits run together to the same string when modulus and exponent are
+	// written one after the other without a separator ((N, e) and (N >> 4, lastdigit(N) << 20 | e)), encoded back to back
+	for rep := 0; rep < 4; rep++ {
+		n := c18Modulus(c, 2048-8*rep, 0)
+		e := 65537
+		n2 := new(big.Int).Rsh(n, 4)
+		e2 := int(new(big.Int).And(n, big.NewInt(15)).Int64())<<20 | e
+		for _, pr := range [][2]any{{n, e}, {n2, e2}, {n, e}} {
+			kN, kE := pr[0].(*big.Int), pr[1].(int)
+			key := &rsa.PublicKey{N: kN, E: kE}
+			for legacy := 0; legacy < 2; legacy++ {
+				enc, err := util.MarshalTokenKey(key, legacy == 1)
+				if err != nil {
+					continue
+				}
+				name := "marshal_pss"
+				if legacy == 1 {
+					name = "marshal_legacy"
+				}
+				c.Case("marshal:"+name+":digit-run-together-pairs", true, name, [][]byte{kN.Bytes(), big.NewInt(int64(kE)).Bytes()}, [][]byte{enc})
+				k, err := c18Unmarshal(c, "unmarshal:of-own-encoding", enc)
+				if err != nil || k == nil || k.N.Cmp(kN) != 0 || k.E != kE {
+					c.Violation("decoding inverts encoding of an RSA token key (keys whose digits run together, encoded back to back)", map[string]any{"bits": kN.BitLen(), "e": kE, "legacy": legacy == 1})
+				}
+			}
+		}
+	}
+	// issuers whose key OBJECT is replaced in place after construction (rotation by *key = *next): the key id an issuer
+	// reports is at all times SHA-256 of the serialization of the key it reports
+	for i := 0; i < 2; i++ {
+		obj := *rsaKey(i)
+		iss2 := type2.NewBasicPublicIssuer(&obj)
+		iss3 := type3.NewRateLimitedIssuer(&obj)
+		for step := 0; step < 2; step++ {
+			if step == 1 {
+				obj = *rsaKey(i + 1)
+			}
+			for which, pair := range [][2]any{{iss2.TokenKeyID(), iss2.TokenKey()}, {iss3.TokenKeyID(), iss3.TokenKey()}} {
+				id, pk := pair[0].([]byte), pair[1].(*rsa.PublicKey)
+				enc, _ := util.MarshalTokenKeyPSSOID(pk)
+				sum := sha256.Sum256(enc)
+				c.Count("keyid:key-object-replaced-in-place", 1, fmt.Sprint(i, step, which))
+				if !bytes.Equal(id, sum[:]) {
+					c.Violation("the key id an issuer reports is SHA-256 of the serialization of the token key it reports (key object replaced in place after construction)", map[string]any{"issuer_type": 2 + which, "after_replacement": step == 1})
+				}
+			}
+		}
+	}
 	for i := 0; i < 2; i++ { // ... and whatever an issuer derives afterwards
 		type2.NewBasicPublicIssuer(rsaKey(i)).TokenKeyID()
 		type3.NewRateLimitedIssuer(rsaKey(i)).TokenKeyID()
